@@ -1,3 +1,238 @@
+// Command linchk checks recorded histories of the awaitable map against a sequential model with
+// porcupine. Input: JSON lines as written by the cmap harness (one scenario per line).
+// Output: one JSON line per scenario: {"index":..,"result":"ok|illegal|unknown","detail":".."}.
 package main
 
-func main() {}
+import (
+	"bufio"
+	"encoding/json"
+	"fmt"
+	"os"
+	"sort"
+	"time"
+
+	"github.com/anishathalye/porcupine"
+)
+
+type event struct {
+	Client  int    `json:"client"`
+	Kind    string `json:"kind"`
+	Key     int    `json:"key"`
+	Val     int    `json:"val"`
+	Out     int    `json:"out"`
+	OutB    bool   `json:"outb"`
+	Wait    bool   `json:"wait"`
+	Called  bool   `json:"called"`
+	Vals    []int  `json:"vals"`
+	Call    int64  `json:"call"`
+	Ret     int64  `json:"ret"`
+	WokenAt int64  `json:"woken_at"`
+}
+
+type scenario struct {
+	Index   int `json:"index"`
+	Params  struct {
+		ErrMap bool `json:"errmap"`
+	} `json:"params"`
+	History []event `json:"history"`
+}
+
+type state struct {
+	Kind int // 0 absent, 1 awaited, 2 present
+	Val  int
+}
+
+type input struct {
+	Kind string
+	Key  int
+	Val  int
+}
+
+type output struct {
+	Out    int
+	OutB   bool
+	Wait   bool
+	Called bool
+}
+
+var model = porcupine.Model{
+	Partition: func(history []porcupine.Operation) [][]porcupine.Operation {
+		m := map[int][]porcupine.Operation{}
+		for _, op := range history {
+			k := op.Input.(input).Key
+			m[k] = append(m[k], op)
+		}
+		keys := make([]int, 0, len(m))
+		for k := range m {
+			keys = append(keys, k)
+		}
+		sort.Ints(keys)
+		var out [][]porcupine.Operation
+		for _, k := range keys {
+			out = append(out, m[k])
+		}
+		return out
+	},
+	Init: func() interface{} { return state{} },
+	Step: func(st, in, out interface{}) (bool, interface{}) {
+		s := st.(state)
+		i := in.(input)
+		o := out.(output)
+		switch i.Kind {
+		case "add":
+			if s.Kind != 2 {
+				return o.OutB, state{2, i.Val}
+			}
+			return !o.OutB, s
+		case "addorget":
+			if s.Kind != 2 {
+				return o.OutB && o.Called && o.Out == i.Val, state{2, i.Val}
+			}
+			return !o.OutB && !o.Called && o.Out == s.Val, s
+		case "set":
+			return true, state{2, i.Val}
+		case "get":
+			if s.Kind == 2 {
+				return o.Out == s.Val, s
+			}
+			return o.Out == 0, state{1, 0} // a lookup of an absent key leaves a placeholder
+		case "getorwait", "waitget":
+			if s.Kind == 2 {
+				return o.Out == s.Val && !o.Wait && !o.OutB, s
+			}
+			if s.Kind == 0 {
+				return o.Out == 0 && o.Wait && o.OutB, state{1, 0}
+			}
+			return o.Out == 0 && o.Wait && !o.OutB, s
+		case "contains":
+			switch s.Kind {
+			case 2:
+				return o.OutB, s
+			case 0:
+				return !o.OutB, s
+			}
+			return true, s // a merely awaited key: the documented behaviour does not say
+		}
+		return false, s
+	},
+	Equal: func(a, b interface{}) bool { return a.(state) == b.(state) },
+	DescribeOperation: func(in, out interface{}) string {
+		return fmt.Sprintf("%+v -> %+v", in, out)
+	},
+}
+
+type verdict struct {
+	Index  int    `json:"index"`
+	Result string `json:"result"`
+	Detail string `json:"detail,omitempty"`
+	Ops    int    `json:"ops"`
+}
+
+func main() {
+	if len(os.Args) < 2 {
+		fmt.Fprintln(os.Stderr, "usage: linchk histories.jsonl")
+		os.Exit(2)
+	}
+	f, err := os.Open(os.Args[1])
+	if err != nil {
+		fmt.Fprintln(os.Stderr, err)
+		os.Exit(2)
+	}
+	sc := bufio.NewScanner(f)
+	sc.Buffer(make([]byte, 1<<20), 1<<26)
+	enc := json.NewEncoder(os.Stdout)
+	for sc.Scan() {
+		var s scenario
+		if err := json.Unmarshal(sc.Bytes(), &s); err != nil {
+			fmt.Fprintln(os.Stderr, err)
+			os.Exit(2)
+		}
+		v := verdict{Index: s.Index, Result: "ok"}
+		if s.Params.ErrMap {
+			enc.Encode(v)
+			continue
+		}
+		var ops []porcupine.Operation
+		maxStamp := int64(0)
+		for _, e := range s.History {
+			if e.Ret > maxStamp {
+				maxStamp = e.Ret
+			}
+			if e.Call > maxStamp {
+				maxStamp = e.Call
+			}
+		}
+		writes := map[int]bool{}
+		for _, e := range s.History {
+			switch e.Kind {
+			case "woken", "values":
+				continue
+			}
+			if e.Kind == "add" || e.Kind == "set" || e.Kind == "addorget" {
+				writes[e.Val] = true
+			}
+			ret := e.Ret
+			if ret < 0 {
+				// never returned (hung run): it may take effect at any later point
+				ret = maxStamp + 10
+			}
+			ops = append(ops, porcupine.Operation{ClientId: e.Client, Input: input{e.Kind, e.Key, e.Val}, Call: e.Call, Output: output{e.Out, e.OutB, e.Wait, e.Called}, Return: ret})
+		}
+		v.Ops = len(ops)
+		res := porcupine.CheckOperationsTimeout(model, ops, 30*time.Second)
+		switch res {
+		case porcupine.Illegal:
+			v.Result = "illegal"
+			v.Detail = "history is not linearizable with respect to the sequential awaitable-map model"
+		case porcupine.Unknown:
+			v.Result = "unknown"
+		}
+		// Values(): a regular (not atomic) read per key. Every returned value must have been written
+		// by an insert invoked before Values returned.
+		if v.Result == "ok" {
+			for _, e := range s.History {
+				if e.Kind != "values" || e.Ret < 0 {
+					continue
+				}
+				for _, x := range e.Vals {
+					ok := false
+					for _, w := range s.History {
+						if (w.Kind == "add" || w.Kind == "set" || w.Kind == "addorget") && w.Val == x && w.Call <= e.Ret {
+							ok = true
+						}
+					}
+					if !ok {
+						v.Result = "illegal"
+						v.Detail = fmt.Sprintf("Values() returned %d, which no insert invoked before its return had written", x)
+					}
+				}
+				// a key whose only insert completed before Values was invoked and was never overwritten must be listed
+				byKey := map[int][]event{}
+				for _, w := range s.History {
+					if w.Kind == "add" || w.Kind == "set" || w.Kind == "addorget" {
+						byKey[w.Key] = append(byKey[w.Key], w)
+					}
+				}
+				for k, ws := range byKey {
+					if len(ws) != 1 || ws[0].Ret < 0 || ws[0].Ret >= e.Call {
+						continue
+					}
+					if ws[0].Kind == "add" && !ws[0].OutB {
+						continue
+					}
+					found := false
+					for _, x := range e.Vals {
+						if x == ws[0].Val {
+							found = true
+						}
+					}
+					if !found {
+						v.Result = "illegal"
+						v.Detail = fmt.Sprintf("Values() omitted key %d whose only insert (%d) had completed before it was invoked", k, ws[0].Val)
+					}
+				}
+			}
+		}
+		enc.Encode(v)
+	}
+}
